@@ -16,6 +16,15 @@ Monitor 1 (in-process, exact) - same MWire messages as C29, bytes from the real 
                   complete would block for ever
   client-pipe     _SmartClientRequest stack (v1/v2 read_line/read_bytes, v3 ConventionalResponseHandler
                   ._read_more) over SmartSimplePipesClientMedium whose pipe checks the same inequality
+  rejected-body   (_c30_reject) well-formed v3 requests that carry a body (bytes / readv / stream / stream ending in
+                  an error) for a verb that has already answered when the args arrived: harness verb answering ok /
+                  failed / raising at do(), and ~20 real verbs against a path with no repository / branch / file
+                  (Repository.get_parent_map, insert_stream, get, hello ...).  The real ConventionalRequestHandler
+                  raises from every later part and ProtocolThreeDecoder.accept_bytes restarts its state machine;
+                  the decoder must still stop exactly at the trailing 'e'.  Drivers: stingy/direct, then the pipe
+                  loop with a FOLLOW-UP request (a regular exchange of any version, or hello; sometimes two
+                  rejected bodies in a row first) that must be answered completely, then the lock-step socket loop.
+                  An observer counts which handler callback raised in which handler state (handler_raised:*).
 Monitor 2 (thorough, end-to-end): a real `python -m breezy serve --inet --allow-writes` child on
 pipes, driven by the real client stack one request at a time, stdin kept open.  If a response does
 not complete, the verdict is read from /proc/<pid>/syscall: blocked in read(0, ...) => violation;
@@ -28,20 +37,26 @@ import subprocess
 import time
 
 from . import _c29_wire as W
+from . import _c30_reject as RJ
 
 ID = "C30"
 LEVEL = "exploration"
 TECHNIQUE = ("read-size monitor: stingy asserting pipe under the real protocol objects and the real pipe/socket serving "
-             "loops and client media; thorough: real `serve --inet` child, stall verdict from /proc/<pid>/syscall")
+             "loops and client media, including requests whose body the message handler rejects, each followed by a request "
+             "that must still be answered; thorough: real `serve --inet` child, stall verdict from /proc/<pid>/syscall")
 LEVEL_TEXT = ("on every generated message and every short-read pattern tried, no read request exceeded the bytes left in the "
               "current message and completion was signalled exactly at its last byte; sampled, not exhaustive")
 RULE = ("messages: the C29 MWire grammar without extra bytes (v1/v2/v3 x request/response x body none/bytes 0..70000 "
-        "crossing 64 KiB/readv/stream incl. empty chunk/stream erroring after j chunks x unknown verb); short-read patterns: "
+        "crossing 64 KiB/readv/stream incl. empty chunk/stream erroring after j chunks x unknown verb), plus v3 requests whose "
+        "body parts the server's message handler rejects because the verb answered at args time (harness verb ok/failed/"
+        "raising, real verbs on a path with nothing there) each followed by a further request on the same medium; "
+        "short-read patterns: "
         "always 1 byte (random <= 8 KiB when the hint is >= 600), always the full hint, seeded mix of 1 / n / n-1 / random; "
         "evaluation = one (message(s), driver, read pattern) run judged; non-trivial = at least one read was answered with "
         "fewer bytes than asked; distinct = distinct (message shape(s), driver, pattern, number of reads)")
 CASES = {"quick": 96, "thorough": 1280}
 PER_CASE = {"quick": 16, "thorough": 32}
+REJECT_PER_CASE = {"quick": 4, "thorough": 8}     # rejected-body requests per case (see _c30_reject)
 BUDGET_S = {"quick": 50, "thorough": 780}
 MIN_EVALS = {"quick": 8000, "thorough": 200000}
 FLOORS = {
@@ -50,7 +65,12 @@ FLOORS = {
               "oracle_response_complete_before_next_read": 1200, "oracle_socket_no_read_after_request_end": 600,
               "drv_server_stingy": 3000, "drv_server_pipe_loop": 600, "drv_client_pipe": 3000, "drv_server_socket_lockstep": 300,
               "shape_v1": 200, "shape_v2": 200, "shape_v3": 200, "shape_body_over_64k": 20, "shape_stream": 100,
-              "shape_stream_error": 60, "shape_readv": 100},
+              "shape_stream_error": 60, "shape_readv": 100,
+              "shape_rejected_body": 200, "drv_rejected_body_stingy": 400, "drv_rejected_body_pipe_loop": 500,
+              "drv_rejected_body_socket_lockstep": 150, "oracle_read_size_rejected_body_direct": 4000,
+              "oracle_read_size_rejected_body_pipe_loop": 60000, "oracle_follow_up_answered_after_rejected_body": 1000,
+              "handler_raised:bytes_part_received@end": 1000, "handler_raised:byte_part_received@end": 50,
+              "handler_raised:structure_part_received@end": 50},
     "thorough": {"oracle_read_size_server_direct": 1200000, "oracle_read_size_server_pipe_loop": 1200000,
                  "oracle_read_size_client_pipe": 1200000, "oracle_finish_exactly_at_end": 200000,
                  "oracle_response_complete_before_next_read": 30000, "oracle_socket_no_read_after_request_end": 15000,
@@ -75,13 +95,20 @@ ASSUMPTIONS = [
     "15 s without a byte (wall clock only decides WHEN to look at /proc, the verdict is the blocked read(0))",
     "monitor 2 uses real verbs (hello, Transport.is_readonly, BzrDir.open_2.1, Branch.last_revision_info, get, has, stat, "
     "readv, put, append, mkdir, Repository.get_parent_map, Repository.insert_stream_1.19 with a (garbage) body stream, "
-    "an unregistered verb); only completion of the response and successful decoding are judged there",
+    "an unregistered verb; v3: bodies for verbs that answer at args time); only completion of the response and successful "
+    "decoding are judged there",
+    "rejected-body class: a v3 request with a body for a verb that answers when its args arrive is taken as well-formed "
+    "(the client cannot know the outcome before it has sent the body; e.g. Repository.get_parent_map on a path without a "
+    "repository); its reference response is the one produced when the bare protocol object is fed exactly its hints; "
+    "what the harness verbs saw is judged (dispatched once, no body delivered), real verbs only by their bytes; after a "
+    "failed stingy/pipe run of such a request the socket driver is skipped for it (counted in the histogram)",
 ]
 STALL_S = 15.0
 
 
 def worker_init(tier):
     W.install()
+    RJ.install()
 
 
 def _shape_counts(ctx, x):
@@ -115,6 +142,77 @@ def _where(x, pos, total):
     return "body"
 
 
+def _qlabel(x):
+    """Request-body class used in failure keys; the rejected-body class gets its own keys."""
+    return ("body-rejected-by-handler:" if x.get("reject") else "") + x["qbody"][0]
+
+
+def _judge_request(x, exp, fail, tag):
+    if x.get("real") or x.get("reject"):
+        RJ.judge_reject(x, exp, fail, tag)
+    else:
+        W.judge_request(x, exp, fail, tag)
+
+
+def _server_stingy(ctx, x, R, S, modes, drv="drv_server_stingy", oracle="oracle_read_size_server_direct"):
+    """Bare server protocol object, stingy feeding: next_read_size() against what is left of R.
+    S = the reference response, or None: the response of the first run becomes the reference.
+    Returns (S, clean)."""
+    rng = ctx.rng
+    sh = W.shape(x)
+    vtag = "v%d" % x["v"]
+    rej = bool(x.get("reject"))
+    name = "server-stingy-rejected-body" if rej else "server-stingy"
+    rsfx = ":body-rejected-by-handler" if rej else ""
+    clean = True
+    for mode in modes:
+        if rej:
+            RJ.drain()
+        res = W.server_stingy(x, R, rng, mode)
+        run = res["run"]
+        ctx.count(drv)
+        ctx.count(oracle, res["steps"])
+        nontrivial = mode != "full"
+        d = {"shape": sh, "driver": name + "/" + mode, "request_len": len(R)}
+        if rej:
+            raised = RJ.drain()
+            d["family"] = x["family"]
+            d["handler_raised"] = raised
+            nontrivial = nontrivial and bool(raised)
+            if not raised:
+                ctx.hist("rejected-body: handler raised nothing (no part after the args)")
+        ctx.note((sh, name, mode, res["steps"]), nontrivial=nontrivial,
+                 sample={"exchange": sh, "driver": name + "/" + mode, "request_len": len(R), "read_size_queries": res["steps"]}
+                 if mode == "mixed" and not rej else None)
+        if run.error is not None:
+            ctx.hist("server_decode_error_see_C29")
+            ctx.fail("server:%s:raised-under-short-reads:%s%s" % (vtag, type(run.error).__name__, rsfx), repr(run.error)[:300], d)
+            clean = False
+            continue
+        ctx.count("oracle_finish_exactly_at_end")
+        for (n, rem, c) in res["over"][:1]:
+            clean = False
+            if rem == 0:
+                ctx.fail("server:%s:not-finished-at-message-end%s" % (vtag, rsfx),
+                         "all %d bytes consumed but next_read_size() = %d" % (len(R), n), d)
+            elif n <= 0:
+                ctx.fail("server:%s:non-positive-read-size-mid-message" % vtag, "next_read_size() = %d with %d bytes left" % (n, rem), d)
+            else:
+                ctx.fail("server:%s:read-size-exceeds-remaining:%s:%s" % (vtag, _qlabel(x), _where(x, c, len(R))),
+                         "next_read_size() = %d with only %d bytes of the request left (consumed %d of %d)" % (n, rem, c, len(R)), d)
+        if res["zero_early"] is not None:
+            clean = False
+            ctx.fail("server:%s:finished-before-message-end%s" % (vtag, rsfx),
+                     "next_read_size() = 0 after %d of %d bytes" % (res["zero_early"], len(R)), d)
+        _judge_request(x, run.exp, lambda k, m, dd=None: ctx.fail(name + ":" + k, m, dd), name + "/" + mode)
+        if S is None:
+            S = run.out.value()
+        elif run.out.value() != S:
+            ctx.fail(name + ":response-differs", "response under short reads differs from the %s run"
+                     % ("first (exact-hint)" if rej else "one-piece"), d)
+    return S, clean
+
+
 def _one_exchange(ctx, x):
     rng = ctx.rng
     _shape_counts(ctx, x)
@@ -131,35 +229,7 @@ def _one_exchange(ctx, x):
         ctx.fail(key, msg, detail)
 
     # ---- server protocol object, stingy feeding
-    for mode in ("one", "mixed", "full"):
-        res = W.server_stingy(x, R, rng, mode)
-        run = res["run"]
-        ctx.count("drv_server_stingy")
-        ctx.count("oracle_read_size_server_direct", res["steps"])
-        ctx.note((sh, "server-stingy", mode, res["steps"]), nontrivial=mode != "full",
-                 sample={"exchange": sh, "driver": "server-stingy/" + mode, "request_len": len(R), "read_size_queries": res["steps"]}
-                 if mode == "mixed" else None)
-        d = {"shape": sh, "driver": "server-stingy/" + mode, "request_len": len(R)}
-        if run.error is not None:
-            ctx.hist("server_decode_error_see_C29")
-            fail("server:%s:raised-under-short-reads:%s" % (vtag, type(run.error).__name__), repr(run.error)[:300], d)
-            continue
-        ctx.count("oracle_finish_exactly_at_end")
-        for (n, rem, c) in res["over"][:1]:
-            if rem == 0:
-                fail("server:%s:not-finished-at-message-end" % vtag,
-                     "all %d bytes consumed but next_read_size() = %d" % (len(R), n), d)
-            elif n <= 0:
-                fail("server:%s:non-positive-read-size-mid-message" % vtag, "next_read_size() = %d with %d bytes left" % (n, rem), d)
-            else:
-                fail("server:%s:read-size-exceeds-remaining:%s:%s" % (vtag, x["qbody"][0], _where(x, c, len(R))),
-                     "next_read_size() = %d with only %d bytes of the request left (consumed %d of %d)" % (n, rem, c, len(R)), d)
-        if res["zero_early"] is not None:
-            fail("server:%s:finished-before-message-end" % vtag,
-                 "next_read_size() = 0 after %d of %d bytes" % (res["zero_early"], len(R)), d)
-        W.judge_request(x, run.exp, lambda k, m, dd=None: fail("server-stingy:" + k, m, dd), "server-stingy/" + mode)
-        if run.out.value() != S:
-            fail("server-stingy:response-differs", "response under short reads differs from the one-piece run", d)
+    _server_stingy(ctx, x, R, S, ("one", "mixed", "full"))
 
     # ---- client over a stingy pipe
     for mode in ("one", "mixed", "full"):
@@ -192,6 +262,113 @@ def _one_exchange(ctx, x):
     return R, S
 
 
+def _pipe_group(ctx, gx, Rs, Ss, modes, drv="drv_server_pipe_loop", oracle="oracle_read_size_server_pipe_loop",
+                oracle_next="oracle_response_complete_before_next_read"):
+    """The real SmartServerPipeStreamMedium.serve() over the requests gx back to back on one medium."""
+    rng = ctx.rng
+    shapes = [W.shape(x) for x in gx]
+    rej = any(x.get("reject") for x in gx)
+    sfx = ":group-with-handler-rejected-body" if rej else ""
+    name = "server-pipe-loop-rejected-body" if rej else "server-pipe-loop"
+    for mode in modes:
+        if rej:
+            RJ.drain()
+        run = W.server_pipe_loop(gx, Rs, rng, mode)
+        inp = run.inp
+        tag = name + "/" + mode
+        ctx.count(drv)
+        ctx.count(oracle, inp.reads)
+        nontrivial = mode != "full"
+        d = {"shapes": shapes, "driver": tag, "request_lens": [len(r) for r in Rs]}
+        if rej:
+            raised = RJ.drain()
+            d["families"] = [x.get("family", "regular") for x in gx]
+            d["handler_raised"] = raised
+            nontrivial = nontrivial and bool(raised)
+            for k, v in raised.items():
+                ctx.count("handler_raised:" + k, v)
+        ctx.note((shapes, tag, inp.reads), nontrivial=nontrivial,
+                 sample={"exchanges": shapes, "driver": tag, "reads": inp.reads, "request_lens": [len(r) for r in Rs]}
+                 if mode == "one" else None)
+        if inp.over:
+            nn, rem, k, off = inp.over[0]
+            x = gx[k]
+            ctx.fail("server-pipe:v%d:read-size-exceeds-remaining:%s:%s" % (x["v"], _qlabel(x), _where(x, off, len(Rs[k]))),
+                     "read(%d) with only %d bytes of request #%d left (consumed %d of %d); %d such reads"
+                     % (nn, rem, k, off, len(Rs[k]), len(inp.over)), d)
+        if inp.bad:
+            ctx.fail("server-pipe:non-positive-read-size-mid-message" + sfx, "read(%r) with %d bytes left" % inp.bad[0][:2], d)
+        if run.error is not None:
+            ctx.fail("server-pipe:serve-raised:%s%s" % (type(run.error).__name__, sfx), repr(run.error)[:300], d)
+            continue
+        if run.terminated is not None:
+            ctx.fail("server-pipe:terminated-due-to-error:%s%s" % (type(run.terminated).__name__, sfx), repr(run.terminated)[:300], d)
+            continue
+        if inp.pos != len(inp.data) or not inp.eof_reads:
+            ctx.fail("server-pipe:stopped-reading-early" + sfx, "serve() returned after %d of %d bytes" % (inp.pos, len(inp.data)), d)
+            continue
+        out = run.out.value()
+        snaps = run.snaps
+        if len(snaps) != len(gx):
+            ctx.fail("server-pipe:boundary-count" + sfx, "%d message boundaries seen for %d requests" % (len(snaps), len(gx)), d)
+            continue
+        starts = [0] + snaps[:-1]
+        for k, x in enumerate(gx):
+            ctx.count(oracle_next)
+            ctx.count("oracle_finish_exactly_at_end")
+            Sk = out[starts[k]:snaps[k]]
+            if Sk != Ss[k]:
+                key = "response-incomplete-when-next-request-is-read" if Ss[k].startswith(Sk) else "response-differs"
+                ctx.fail("server-pipe:v%d:%s%s" % (x["v"], key, sfx),
+                         "when the server asked for the first byte after request #%d it had written %d bytes, the complete "
+                         "response has %d" % (k, len(Sk), len(Ss[k])), d)
+            if run.dirty_at[k]:
+                ctx.fail("server-pipe:v%d:response-not-flushed-when-next-request-is-read%s" % (x["v"], sfx),
+                         "output not flushed when the server started waiting for the request after #%d" % k, d)
+            _judge_request(x, run.exps[k], lambda kk, m, dd=None: ctx.fail("server-pipe:" + kk + sfx, m, dd), tag + "#%d" % k)
+        if len(out) != snaps[-1]:
+            ctx.fail("server-pipe:output-after-end-of-input" + sfx, "%d bytes written after EOF was seen" % (len(out) - snaps[-1]), d)
+
+
+def _socket_group(ctx, gx, Rs, Ss, drv="drv_server_socket_lockstep", oracle="oracle_socket_no_read_after_request_end",
+                  fams=("random", "struct")):
+    """SmartServerSocketStreamMedium.serve(), lock-step client."""
+    rng = ctx.rng
+    shapes = [W.shape(x) for x in gx]
+    rej = any(x.get("reject") for x in gx)
+    sfx = ":group-with-handler-rejected-body" if rej else ""
+    name = "server-socket-lockstep-rejected-body" if rej else "server-socket-lockstep"
+    total = sum(len(r) for r in Rs)
+    ends = list(itertools.accumulate(len(r) for r in Rs))
+    for fam in fams:
+        sizes = W.seg_random(rng, total) if fam == "random" else W.seg_struct(total, ends)
+        run = W.server_socket_loop(gx, Rs, sizes, True)
+        sock = run.inp
+        tag = name + "/" + fam
+        ctx.count(drv)
+        ctx.note((shapes, tag, len(sizes)), nontrivial=True)
+        d = {"shapes": shapes, "driver": tag, "request_lens": [len(r) for r in Rs]}
+        if rej:
+            d["families"] = [x.get("family", "regular") for x in gx]
+        if run.error is not None:
+            ctx.fail("server-socket:serve-raised:%s%s" % (type(run.error).__name__, sfx), repr(run.error)[:300], d)
+            continue
+        if run.terminated is not None:
+            ctx.fail("server-socket:terminated-due-to-error:%s%s" % (type(run.terminated).__name__, sfx), repr(run.terminated)[:300], d)
+            continue
+        ctx.count(oracle, len(gx))
+        if sock.blocked:
+            k = next(j for j, e in enumerate(ends) if e >= sock.blocked[0])
+            ctx.fail("server-socket:v%d:recv-after-request-end-before-response%s" % (gx[k]["v"], sfx),
+                     "recv() issued with request #%d fully delivered and the client still waiting for its response" % k, d)
+        out = run.out.value()
+        if sock.sent_at_first_eof is not None and sock.sent_at_first_eof != len(out):
+            ctx.fail("server-socket:output-after-end-of-input" + sfx, "response bytes written after the server had seen EOF", d)
+        if out != b"".join(Ss):
+            ctx.fail("server-socket:responses-differ" + sfx, "output differs from the stand-alone responses (len %d vs %d)"
+                     % (len(out), sum(len(s) for s in Ss)), d)
+
+
 def _loops(ctx, xs, wires):
     rng = ctx.rng
     i = 0
@@ -204,84 +381,83 @@ def _loops(ctx, xs, wires):
         gx = [xs[k] for k in idx]
         Rs = [wires[k][0] for k in idx]
         Ss = [wires[k][1] for k in idx]
-        shapes = [W.shape(x) for x in gx]
-        # ---- pipe loop
-        for mode in ("one", "mixed", "full"):
-            run = W.server_pipe_loop(gx, Rs, rng, mode)
-            inp = run.inp
-            tag = "server-pipe-loop/" + mode
-            ctx.count("drv_server_pipe_loop")
-            ctx.count("oracle_read_size_server_pipe_loop", inp.reads)
-            ctx.note((shapes, tag, inp.reads), nontrivial=mode != "full",
-                     sample={"exchanges": shapes, "driver": tag, "reads": inp.reads, "request_lens": [len(r) for r in Rs]}
-                     if mode == "one" else None)
-            d = {"shapes": shapes, "driver": tag, "request_lens": [len(r) for r in Rs]}
-            if inp.over:
-                nn, rem, k, off = inp.over[0]
-                x = gx[k]
-                ctx.fail("server-pipe:v%d:read-size-exceeds-remaining:%s:%s" % (x["v"], x["qbody"][0], _where(x, off, len(Rs[k]))),
-                         "read(%d) with only %d bytes of request #%d left (consumed %d of %d); %d such reads"
-                         % (nn, rem, k, off, len(Rs[k]), len(inp.over)), d)
-            if inp.bad:
-                ctx.fail("server-pipe:non-positive-read-size-mid-message", "read(%r) with %d bytes left" % inp.bad[0][:2], d)
-            if run.error is not None:
-                ctx.fail("server-pipe:serve-raised:%s" % type(run.error).__name__, repr(run.error)[:300], d)
-                continue
-            if run.terminated is not None:
-                ctx.fail("server-pipe:terminated-due-to-error:%s" % type(run.terminated).__name__, repr(run.terminated)[:300], d)
-                continue
-            if inp.pos != len(inp.data) or not inp.eof_reads:
-                ctx.fail("server-pipe:stopped-reading-early", "serve() returned after %d of %d bytes" % (inp.pos, len(inp.data)), d)
-                continue
-            out = run.out.value()
-            snaps = run.snaps
-            if len(snaps) != len(gx):
-                ctx.fail("server-pipe:boundary-count", "%d message boundaries seen for %d requests" % (len(snaps), len(gx)), d)
-                continue
-            starts = [0] + snaps[:-1]
-            for k, x in enumerate(gx):
-                ctx.count("oracle_response_complete_before_next_read")
-                ctx.count("oracle_finish_exactly_at_end")
-                Sk = out[starts[k]:snaps[k]]
-                if Sk != Ss[k]:
-                    key = "response-incomplete-when-next-request-is-read" if Ss[k].startswith(Sk) else "response-differs"
-                    ctx.fail("server-pipe:v%d:%s" % (x["v"], key),
-                             "when the server asked for the first byte after request #%d it had written %d bytes, the complete "
-                             "response has %d" % (k, len(Sk), len(Ss[k])), d)
-                if run.dirty_at[k]:
-                    ctx.fail("server-pipe:v%d:response-not-flushed-when-next-request-is-read" % x["v"],
-                             "output not flushed when the server started waiting for the request after #%d" % k, d)
-                W.judge_request(x, run.exps[k], lambda kk, m, dd=None: ctx.fail("server-pipe:" + kk, m, dd), tag + "#%d" % k)
-            if len(out) != snaps[-1]:
-                ctx.fail("server-pipe:output-after-end-of-input", "%d bytes written after EOF was seen" % (len(out) - snaps[-1]), d)
-        # ---- socket loop, lock-step client
-        total = sum(len(r) for r in Rs)
-        ends = list(itertools.accumulate(len(r) for r in Rs))
-        for fam in ("random", "struct"):
-            sizes = W.seg_random(rng, total) if fam == "random" else W.seg_struct(total, ends)
-            run = W.server_socket_loop(gx, Rs, sizes, True)
-            sock = run.inp
-            tag = "server-socket-lockstep/" + fam
-            ctx.count("drv_server_socket_lockstep")
-            ctx.note((shapes, tag, len(sizes)), nontrivial=True)
-            d = {"shapes": shapes, "driver": tag, "request_lens": [len(r) for r in Rs]}
-            if run.error is not None:
-                ctx.fail("server-socket:serve-raised:%s" % type(run.error).__name__, repr(run.error)[:300], d)
-                continue
-            if run.terminated is not None:
-                ctx.fail("server-socket:terminated-due-to-error:%s" % type(run.terminated).__name__, repr(run.terminated)[:300], d)
-                continue
-            ctx.count("oracle_socket_no_read_after_request_end", len(gx))
-            if sock.blocked:
-                k = next(j for j, e in enumerate(ends) if e >= sock.blocked[0])
-                ctx.fail("server-socket:v%d:recv-after-request-end-before-response" % gx[k]["v"],
-                         "recv() issued with request #%d fully delivered and the client still waiting for its response" % k, d)
-            out = run.out.value()
-            if sock.sent_at_first_eof is not None and sock.sent_at_first_eof != len(out):
-                ctx.fail("server-socket:output-after-end-of-input", "response bytes written after the server had seen EOF", d)
-            if out != b"".join(Ss):
-                ctx.fail("server-socket:responses-differ", "output differs from the stand-alone responses (len %d vs %d)"
-                         % (len(out), sum(len(s) for s in Ss)), d)
+        _pipe_group(ctx, gx, Rs, Ss, ("one", "mixed", "full"))
+        _socket_group(ctx, gx, Rs, Ss)
+
+
+class _FailFlag:
+    """ctx proxy that remembers whether an oracle failed."""
+
+    def __init__(self, ctx):
+        self._ctx = ctx
+        self.failed = False
+
+    def fail(self, *a, **kw):
+        self.failed = True
+        return self._ctx.fail(*a, **kw)
+
+    def __getattr__(self, name):
+        return getattr(self._ctx, name)
+
+
+def _hello():
+    return {"v": 3, "headers": {}, "verb": b"hello", "args": (), "qbody": ("none",), "known": True, "ok": True, "rargs": (),
+            "rbody": ("none",), "expect_body": False, "real": True, "family": "follow-up:hello", "eq": b"", "er": b""}
+
+
+def _rejected_bodies(ctx, n, xs, wires, big_p):
+    """Well-formed v3 requests carrying a body for a verb that answers at args time (the message handler raises
+    from every later part), each followed on the same medium by a request that must still be answered."""
+    rng = ctx.rng
+    prev = None
+    for _ in range(n):
+        x = RJ.gen_reject(rng, big_p)
+        ctx.count("shape_rejected_body")
+        ctx.hist("rejected-body family " + x["family"].split(":")[0])
+        ctx.hist("rejected-body v3 %s" % x["qbody"][0])
+        ctx.distinct("rejected_body_family", x["family"])
+        ctx.distinct("rejected_body_shape", (x["family"], W.shape(x)))
+        R, _, _ = W.encode_request(x)
+        # bare protocol object first, fed exactly what it asks for (what the pipe medium does); its response is the
+        # reference (no one-piece run here, see the socket driver below)
+        fctx = _FailFlag(ctx)
+        S, _ = _server_stingy(fctx, x, R, None, ("full", "mixed"), drv="drv_rejected_body_stingy",
+                              oracle="oracle_read_size_rejected_body_direct")
+        if not S:
+            ctx.hist("server_decode_error_see_C29")
+            continue
+        # the response the verb gave at args time is the complete, decodable answer (real client, stingy pipe)
+        co = W.client_pipe(x, S, rng, "mixed")
+        if co.error is not None:
+            ctx.hist("client_decode_error_see_C29")
+        elif x.get("real"):
+            ctx.hist("rejected-body real-verb answer:" + str(co.obs.get("status")))
+        else:
+            W.judge_response(x, co.obs, lambda k, m, dd=None: ctx.fail("client-pipe:" + k + ":request-body-rejected-by-handler", m, dd),
+                             "client-pipe/mixed")
+        # follow-up on the same medium: a regular exchange of this case (any version), or hello
+        if xs and rng.random() < 0.8:
+            j = rng.randrange(len(xs))
+            fx, (fR, fS) = xs[j], wires[j]
+        else:
+            fx = _hello()
+            fR, _, _ = W.encode_request(fx)
+            fS = W.server_direct(fx, fR, [len(fR)], True).out.value()
+        gx, Rs, Ss = [x, fx], [R, fR], [S, fS]
+        if prev is not None and rng.random() < 0.35:
+            gx, Rs, Ss = [prev[0]] + gx, [prev[1]] + Rs, [prev[2]] + Ss      # two rejected bodies in a row
+        # (every rejected part costs the real server a formatted traceback: fewer patterns per exchange than in _loops)
+        _pipe_group(fctx, gx, Rs, Ss, ("one", rng.choice(["mixed", "rand"]), "full"), drv="drv_rejected_body_pipe_loop",
+                    oracle="oracle_read_size_rejected_body_pipe_loop", oracle_next="oracle_follow_up_answered_after_rejected_body")
+        if fctx.failed:
+            # the drivers above hand the decoder at most what it asked for.  The socket medium hands it whatever arrived;
+            # a decoder that has lost its place then restarts itself once per buffered byte, formatting an ever longer
+            # exception chain each time - CPU time, not more evidence.
+            ctx.hist("rejected-body: socket driver skipped after a failed stingy / pipe run")
+        else:
+            _socket_group(ctx, gx, Rs, Ss, drv="drv_rejected_body_socket_lockstep",
+                          oracle="oracle_socket_no_read_after_rejected_body", fams=(rng.choice(["random", "struct"]),))
+        prev = (x, R, S)
 
 
 # --------------------------------------------------------------------------
@@ -431,6 +607,12 @@ def _e2e_requests(rng, n):
                 (b"Repository.insert_stream_1.19", (b"b/", b"", b"no-such-token"), "stream_err", chunks, False),
                 (b"vf.nosuch", (b"x",), "bytes", rng.randbytes(size), False),
                 (b"get", (b"small.txt",), "none", None, True),
+                # a body for a verb that answers at args time: the message handler rejects every later part
+                (b"Repository.get_parent_map", (b"nothing-here/", b"include-missing:", b"rev-2"), "bytes", b"some-search-body", True),
+                (b"hello", (), "bytes", rng.randbytes(size % 3000), False),
+                (b"get", (b"missing",), "bytes", rng.randbytes(size % 300), True),
+                (b"Repository.insert_stream_1.19", (b"nothing-here/", b"", b"tok"), "stream", chunks, False),
+                (b"Repository.insert_stream_1.19", (b"nothing-here/", b"", b"tok"), "stream_err", chunks, False),
             ]
         verb, args, kind, payload, eb = rng.choice(pool)
         reqs.append((v, verb, args, kind, payload, eb))
@@ -578,5 +760,6 @@ def case(ctx):
             xs.append(x)
             wires.append(r)
     _loops(ctx, xs, wires)
+    _rejected_bodies(ctx, REJECT_PER_CASE[tier], xs, wires, 0.03)
     if tier == "thorough" and ctx.index % E2E_EVERY == 0:
         _e2e(ctx, E2E_REQUESTS)
